@@ -16,6 +16,11 @@ CHECKS = {
          "Seeded hostile histories of the real application: a simulated remote chain emits events, one pigeon per validator votes (honest, late, or for an altered claim), stake moves, validators get jailed/unjailed, governance moves the oracle cursor down/up/to the same value and back. After every block the shadow oracle re-derives from the stored attestation records and staking powers: duplicate-free vote lists, distinct voters' power*100 > 66*total for every claim that took effect, strictly consecutive nonces, one claim per nonce per reset epoch, cursor advance == number of effects, and supply/receiver effects applied exactly once. Held = held on those histories.",
          "Stored powers after a block equal those the tally saw (module order); jailing via valset.Jail; compass hand-over resets only at bring-up.",
          "DESIGN.md §2 C02"),
+ "C03": ("exploration", "chain+world",
+         "view-diff monitor over an enumerated (message type x attack role) matrix delivered through the real ante chain and router on forked states, cross-checked against real ABCI blocks",
+         "Every Paloma sdk.Msg type registered with a handler is discovered at run time; for each an honest instance in the name of principal B is built from a live world state and then delivered as attacks signed only by an account A without grant (foreign signer, swapped creator with the body still naming B, swapped authority, confirmation with a foreign external signature). Oracle: an accepted attack leaves B's view (everything Paloma keeps in B's name, read through exported getters) and the governance view unchanged; honest and fee-grant-delegated deliveries must be accepted (so the templates are live). Held = held on the enumerated matrix in the generated world states.",
+         "Exceptions the property states are exempt (fee-grant delegation, confirmations carrying B's own external signature, licences for fresh addresses); compass deployment bookkeeping and bad-signature evidence are outside the views; message types without a template are listed in the evidence.",
+         "DESIGN.md §2 C03"),
  "C08": ("exploration", "chain+world",
          "twin executions of the same seeded history in separate processes under environment / restart / read-only-traffic / database variations with per-block digest comparison + 25-fold repeated evaluation of pure decisions on forked states",
          "Each omnibus history is executed by 4-6 twin processes that differ only in what must not matter (every env variable the sources read - found by scanning at check time - set vs unset, TZ/GOMAXPROCS/GOGC/LANG, restarts at block boundaries, read-only traffic incl. CheckTx/Simulate between blocks, memdb vs goleveldb); per block the digests of raw txs, tx results (code, data, gas, events), block events and app hash are compared. In the base twin relayer selection, snapshot construction, attestation processing and the end-blockers are evaluated 25x on forks of the same state and write sets and return values compared. Held = no divergence on those executions.",
